@@ -26,6 +26,12 @@ CHECKS = {
          "checked by an independent monitor (reconstructed targets, F/S/T/temperature words) and clearly out-of-range requests must raise ValueError.",
          "Trusted: interpreter reconstruction of targets; builder = machine coordinates (or pure translation); bounds configurations and ladders listed in the evidence.",
          "DESIGN.md §5 C03"),
+ "C04": ("E1", "model_checking",
+         "bounded-exhaustive enumeration of transform compositions x motion histories on the real builder; lock-step independent affine model, per-word and end-to-end oracles",
+         "Every composition of up to 2-3 transform operations followed by a synchronising move and up to 2-3 motion operations is executed on the real builder; every emitted motion word is compared with the "
+         "image of the requested target/displacement under an independent pure-python affine model, omitted axes must not need to move, and the interpreter's machine position must equal transform(position).",
+         "Trusted: pure-python affine model and interpreter; fixed transform parameter values; bypass moves excluded by contract.",
+         "DESIGN.md §5 C04"),
  "C05": ("E1", "model_checking",
          "explicit-state BFS over builder states x a catalogue of calls failing at each validation step; snapshot equality + differential continuation on a twin",
          "From every state reached by the state-building alphabet (depth-bounded) every catalogued failing call is executed on the real builder; a call that raises must "
@@ -44,6 +50,12 @@ CHECKS = {
          "interpreter of all lines emitted so far is compared with everything GState reports and with get_parameter for every remembered move word.",
          "Trusted: my modal interpreter (which S/F contexts count), the numeric grid, the depth bound; 'not demanded' fields listed in the evidence assumptions.",
          "DESIGN.md §5 C07"),
+ "C14": ("E1", "model_checking",
+         "explicit-state BFS over writer-registry histories on the real builder with real files; reference model of registry, per-writer byte logs and file sessions",
+         "All histories (depth-bounded, states merged on registry + logs) of add_writer/remove_writer/emit/flush/teardown over path-based files, caller-owned text/binary file objects and recording writers "
+         "run on the real GCodeBuilder with real files in a scratch directory; recorders are compared after every call, file contents after flush and teardown.",
+         "Trusted: the reference model's reading of 'lines written so far' for a path-based file (per session: the writer truncates when it re-opens); local filesystem semantics.",
+         "DESIGN.md §5 C14"),
  "C17": ("E3", "exploration",
          "exhaustive enumeration of scripted socket behaviours (streams x chunk compositions x no-data-yet placements) through the real Device.readline",
          "Every byte string over {a,LF} up to the stated length, every fragmentation of it into chunks and every placement of up to two 'no data yet' answers, plus long-stream "
@@ -86,6 +98,12 @@ CHECKS = {
          "sagitta bound; for every shape the counts at r, r/2, r/4 must not decrease; both unit systems.",
          "Trusted: closed-form path lengths; the numeric reading of 'about' (1.02 / 0.88); grid values.",
          "DESIGN.md §5 C12"),
+ "C20": ("E1", "model_checking",
+         "explicit-state BFS over hook-registration and motion histories on the real builder; recording hooks + independent interpreter + closed-form extrusion amounts",
+         "All histories up to the depth bound of add/remove hook, move_hook contexts, moves, rapids, bypass moves, traced shapes, distance/extrusion mode switches and E resets run on the real builder; per emitted G1 "
+         "each registered hook must have been called once, in order, with the machine's true origin/target; emitted and remembered words equal the last hook's return; E follows k x XY length.",
+         "Trusted: interpreter positions as the 'true move'; the documented extrusion formula; rounding budget.",
+         "DESIGN.md §5 C20"),
  "C13": ("E1", "model_checking",
          "explicit-state BFS over transformer histories with an independent pure-python 4x4 matrix model stepped in lock-step",
          "All histories of transform/state/context operations up to the depth bound are executed on the real CoordinateTransformer (inside GCodeCore for the context managers); the current, "
